@@ -3,6 +3,7 @@ package main
 import (
 	"fmt"
 	"io"
+	"strings"
 	"sync"
 
 	"github.com/buildbarn/bb-storage/pkg/blobstore/buffer"
@@ -196,12 +197,20 @@ type env struct {
 	buildFail string
 }
 
+var digests = func() map[string]digest.Digest {
+	m := map[string]digest.Digest{}
+	for k, c := range contents {
+		m[k] = sim.SHA256Digest("c16", c)
+	}
+	return m
+}()
+
 func newEnv(contentName string) *env {
 	c, ok := contents[contentName]
 	if !ok {
 		panic("harness: unknown content " + contentName)
 	}
-	return &env{content: c, dg: sim.SHA256Digest("c16", c)}
+	return &env{content: c, dg: digests[contentName]}
 }
 
 func (e *env) source() buffer.Source {
@@ -274,6 +283,13 @@ func (e *env) build(spec BufSpec, name, role string) buffer.Buffer {
 
 // ---- scripted error handler -----------------------------------------------------
 
+type hevent struct {
+	kind string // onerror | done
+	err  error
+	buf  *BufSpec
+	ret  error
+}
+
 type handler struct {
 	e      *env
 	name   string
@@ -282,10 +298,39 @@ type handler struct {
 	mu        sync.Mutex
 	offered   []error
 	returned  []error
+	nrepl     int
 	done      int
 	afterDone int
-	log       []string
+	events    []hevent
 }
+
+// logString renders the call log (only needed when reporting).
+func (h *handler) logString() string {
+	h.mu.Lock()
+	defer h.mu.Unlock()
+	var out []string
+	for _, ev := range h.events {
+		switch {
+		case ev.kind == "done":
+			out = append(out, "Done()")
+		case ev.buf != nil:
+			out = append(out, fmt.Sprintf("OnError(%v) -> buffer %+v", ev.err, *ev.buf))
+		default:
+			out = append(out, fmt.Sprintf("OnError(%v) -> error %v", ev.err, ev.ret))
+		}
+	}
+	return "[" + strings.Join(out, "; ") + "]"
+}
+
+var replNames = func() map[string][]string {
+	m := map[string][]string{}
+	for _, n := range []string{"", "inner"} {
+		for i := 0; i < 8; i++ {
+			m[n] = append(m[n], fmt.Sprintf("%srepl%d", n, i))
+		}
+	}
+	return m
+}()
 
 func (h *handler) OnError(err error) (buffer.Buffer, error) {
 	h.mu.Lock()
@@ -295,7 +340,6 @@ func (h *handler) OnError(err error) (buffer.Buffer, error) {
 	}
 	idx := len(h.offered)
 	h.offered = append(h.offered, err)
-	h.log = append(h.log, fmt.Sprintf("OnError(%v)", err))
 	a := Answer{Kind: "translate"}
 	if idx < len(h.script) {
 		a = h.script[idx]
@@ -306,16 +350,21 @@ func (h *handler) OnError(err error) (buffer.Buffer, error) {
 	switch a.Kind {
 	case "pass":
 		h.returned = append(h.returned, err)
-		h.log = append(h.log, "  -> same error")
+		h.events = append(h.events, hevent{kind: "onerror", err: err, ret: err})
 		return nil, err
 	case "buf":
-		b := h.e.build(*a.Buf, fmt.Sprintf("%srepl%d", h.name, idx), "repl")
-		h.log = append(h.log, fmt.Sprintf("  -> buffer %+v", *a.Buf))
+		name := "replN"
+		if idx < 8 {
+			name = replNames[h.name][idx]
+		}
+		b := h.e.build(*a.Buf, name, "repl")
+		h.nrepl++
+		h.events = append(h.events, hevent{kind: "onerror", err: err, buf: a.Buf})
 		return b, nil
 	default:
 		te := status.Errorf(codes.FailedPrecondition, "translated %s#%d", h.name, idx)
 		h.returned = append(h.returned, te)
-		h.log = append(h.log, fmt.Sprintf("  -> %v", te))
+		h.events = append(h.events, hevent{kind: "onerror", err: err, ret: te})
 		return nil, te
 	}
 }
@@ -323,6 +372,6 @@ func (h *handler) OnError(err error) (buffer.Buffer, error) {
 func (h *handler) Done() {
 	h.mu.Lock()
 	h.done++
-	h.log = append(h.log, "Done()")
+	h.events = append(h.events, hevent{kind: "done"})
 	h.mu.Unlock()
 }
